@@ -97,6 +97,10 @@ class Interp:
         raise PyRaise(exc(name, *args, **fields))
 
     def branch(self, v, note=""):
+        if isinstance(v, SDict):
+            h = self.pack.models.get("truth:SDict")
+            if h is not None:
+                return self.ctx.branch(h(self, v), note)
         return self.ctx.branch(ops.truth(v), note)
 
     def unsupported(self, node, msg):
@@ -484,6 +488,9 @@ class Interp:
             return out
         if is_concrete(recv) or kind_of(recv) in (BYTES, STR):
             return ops.seq_slice(recv, lo, hi)
+        h = self.pack.models.get("slice:" + getattr(recv, "tag", "?"))
+        if h:
+            return h(self, recv, lo, hi)
         self.unsupported(node, "slice of %r" % (recv,))
 
     def getitem(self, recv, idx, node=None):
